@@ -38,6 +38,7 @@ import (
 	"fmt"
 	"io"
 	"os"
+	"unicode/utf8"
 
 	"github.com/robertkrimen/otto/ast"
 	"github.com/robertkrimen/otto/file"
@@ -333,11 +334,8 @@ func (p *parser) position(idx file.Idx) file.Position {
 	position.Filename = p.file.Name()
 	line, last := lineCount(str)
 	position.Line = 1 + line
-	if last >= 0 {
-		position.Column = offset - last
-	} else {
-		position.Column = 1 + len(str)
-	}
+	// The column counts characters, not bytes (see file.Position).
+	position.Column = 1 + utf8.RuneCountInString(str[last+1:])
 
 	return position
 }
